@@ -501,6 +501,12 @@ func genReq(rng *rand.Rand) Req {
 		r.Ctls = genCtls(rng)
 	case "unbind":
 		r.DN = ""
+		if rng.Intn(3) == 0 {
+			r.Ctls = genCtls(rng) // any LDAPMessage may carry controls; an Unbind's are nobody's business, but legal
+		}
+	}
+	if r.Kind == "extended" && rng.Intn(3) == 0 {
+		r.Ctls = genCtls(rng)
 	}
 	return r
 }
